@@ -3,7 +3,7 @@
   for EVERY byte string handed to `NewSigncryptOpenStream`.
 
   The packets are those the front end produced from the bytes
-  (`Front.readSigncrypt`: `Wire`, else go-codec's typed decoding `Codec`), the
+  (`Front.readSigncrypt`: go-codec's typed decoding `Codec`; `Wire` only where `Codec` says unmodelled), the
   state is the one `processHeader` returned for the header decoded from them.
 
   Statements only; proofs in Saltpack/Proofs/CodecBytesAuth.lean, Receiver.lean, Authentic.lean.
@@ -56,11 +56,12 @@ theorem C04_clean_end_iff_complete_bytes (P : Prims) (kr : Keyring) (res : Signc
     exact (Sc.run_ok_iff P st ps.items ps.tail 1).mpr hc
 
 /-- the all-at-once form (`SigncryptOpen`) on what the front end read returns
-    plaintext only if the streaming form on the same bytes ended cleanly -/
+    plaintext only if the streaming form on the same bytes ended cleanly, and then
+    what the streaming form released, attributed to the sender it reports -/
 theorem C04_all_at_once_only_if_clean_bytes (P : Prims) (kr : Keyring) (res : Signcrypt.Resolver) (msg : Bytes)
     (hr : HeaderRead EncHeader) (ps : PStream SigncryptBlock) (hread : Front.readSigncrypt msg = .ok (hr, ps))
     (snd : Option Bytes) (pt : Bytes) (h : Signcrypt.openAll P kr res hr ps = .ok (snd, pt)) :
-    ∃ r, Signcrypt.openBytes P kr res msg = .ok r ∧ r.err = none ∧ r.released = pt := by
+    ∃ r, Signcrypt.openBytes P kr res msg = .ok r ∧ r.err = none ∧ r.released = pt ∧ r.sender = snd := by
   refine ⟨_, sc_openBytes_of_read hread, ?_⟩
   unfold Signcrypt.openAll at h
   generalize Signcrypt.openStream P kr res hr ps = r at h
